@@ -280,7 +280,7 @@ def run(c):
     jobs += [
         ("s3", "Sim_DposLib.cfg", 1, 900, ["-simulate", "file=%s/t,num=%d" % (simdir["s3"], nsim), "-depth", str(dsim), "-seed", str(c.seed * 7919 + 3)]),
         ("s4", "Sim_DposLib4.cfg", 1, 900, ["-simulate", "file=%s/t,num=%d" % (simdir["s4"], nsim), "-depth", str(dsim + 10), "-seed", str(c.seed * 7919 + 4)]),
-        ("s4i", "Sim_DposLib4i.cfg", 1, 900, ["-simulate", "file=%s/t,num=%d" % (simdir["s4i"], nsim), "-depth", str(dsim + 10), "-seed", str(c.seed * 7919 + 6)]),
+        ("s4i", "Sim_DposLib4i.cfg", 1, 900, ["-simulate", "file=%s/t,num=%d" % (simdir["s4i"], max(10, nsim // 2)), "-depth", str(dsim + 10), "-seed", str(c.seed * 7919 + 6)]),
     ] + [(k, cfg, 1, 600, None) for (k, cfg, _, _) in OPEN]
     if not quick:
         jobs += [(k, cfg, 1, 600, None) for (k, cfg, _, _) in HISTORIC]
